@@ -28,6 +28,9 @@ struct SwarmOpts {
     bool allow_interp1 = false;
 };
 Cfg swarm_cfg(Rng& r, const SwarmOpts& o);
+// vary the machine numbers the unit factors depend on (synchrotron frequency instead of alpha0, StepsPerRevolution,
+// bending radius, energy, spread, voltage, revolution frequency), keeping the number of executed steps
+void vary_machine(Rng& r, Cfg& c);
 
 // input-file authoring
 std::string gen_tracking(Rng& r, const Cfg& c, long n);        // "q p" lines in physical (normalised) coordinates
